@@ -200,3 +200,7 @@ def run(ck):
     rule_random(ck)
     rule_affine(ck)
     rule_queue_listing(ck)
+    # equal inputs give equal outputs only if a run cannot leave marks on objects a later run reads: nothing handed to a scheduler
+    # shares mutable state with the network (shared with C05)
+    from .c05 import rule_escape
+    rule_escape(ck, rid="C10.R6")
